@@ -66,11 +66,15 @@ inductive Ev where
   | callEnd (k : Nat)
   | ownMinus (h : Nat)                      -- guest lowers an `own` (import argument / export result): `take_handle`
   | lend (h : Nat)                          -- guest lowers a `borrow` (import argument, method receiver): `handle()`
-  | new (h : Nat) (rep : Nat)               -- `[resource-new](rep)` answered with h
+  | mk (pid : Nat)                          -- user code creates a payload value (the `T` of `Res::new::<T>`)
+  | new (h : Nat) (rep : Nat) (pid : Nat)   -- `Res::new(val)`: val boxed at `rep` (`Some(val)`), `[resource-new](rep)` answered with h
   | rep (h : Nat) (rep : Nat)               -- `[resource-rep](h)` answered with rep
-  | drop (h : Nat)                          -- `[resource-drop](h)`; for an own handle of an exported resource the
-                                            --   host runs `[dtor]` at once (folded into this event by `fold`)
-  | hostDrop (rep : Nat)                    -- the host drops an exported resource it owns: `[dtor](rep)`
+  | take (h : Nat) (pid : Nat)              -- `Res::into_inner`: `rep_take` moves the payload out of the slot (`Option::take`)
+  | drop (h : Nat) (dropped : Option Nat)   -- `[resource-drop](h)`; for an own handle of an exported resource the
+                                            --   host runs `[dtor]` at once (folded into this event by `fold`);
+                                            --   `dropped` = the payload the destructor was observed to drop
+  | hostDrop (rep : Nat) (dropped : Option Nat)  -- the host drops an exported resource it owns: `[dtor](rep)`
+  | udrop (pid : Nat)                       -- user code drops a payload it holds (e.g. the one `into_inner` returned)
   | use (rep : Nat)                         -- host passes a borrow of an exported resource (method receiver, argument)
   | done                                    -- every Rust value has been dropped, the host has dropped what it owned
 deriving DecidableEq, Repr
@@ -113,7 +117,8 @@ def step (s : Host) : Ev → Except String Host
       | some (.borrow _ _) => .error "trap: borrow handle passed as own"
       | none => .error "trap: own transfer of an index the guest does not hold"
   | .lend h => if (s.table.get h).isSome then .ok s else .error "trap: borrow of an index the guest does not hold"
-  | .new h rep =>
+  | .mk _ | .take _ _ | .udrop _ => .ok s          -- not visible to the host
+  | .new h rep _ =>
       if (s.table.get h).isSome then .error "host reuses a live index"
       else if s.live.has rep then .error "resource.new on a representation that is already live"
       else .ok { s with table := s.table.put h (.own (.exp rep)), live := s.live.put rep () }
@@ -121,14 +126,14 @@ def step (s : Host) : Ev → Except String Host
       match s.table.get h with
       | some (.own (.exp r)) => if r = rep then .ok s else .error "resource.rep answered with another representation"
       | _ => .error "trap: resource.rep on an index that is not an own handle of an exported resource"
-  | .drop h =>
+  | .drop h _ =>
       match s.table.get h with
       | some (.own (.exp rep)) =>
           if s.live.has rep then .ok { s with table := s.table.del h, live := s.live.del rep }
           else .error "destructor of a destroyed resource"
       | some _ => .ok { s with table := s.table.del h }
       | none => .error "trap: resource.drop of an index the guest does not hold"
-  | .hostDrop rep =>
+  | .hostDrop rep _ =>
       if !s.live.has rep then .error "destructor of a destroyed resource"
       else if tableHasRep s.table rep then .error "host drops a resource whose own handle the guest holds"
       else .ok { s with live := s.live.del rep }
@@ -154,12 +159,22 @@ structure Cell where
   temp : Option Nat        -- `some k`: glue temporary for a borrowed argument of export call k
 deriving DecidableEq, Repr
 
+/-- where a payload value is -/
+inductive Loc where
+  | held              -- owned by user code (just created, or returned by `into_inner`)
+  | inSlot (rep : Nat)
+  | dead              -- its `Drop` has run
+deriving DecidableEq, Repr
+
 structure Sys where
   table : Map Entry := []     -- the host's table for this guest
   cells : Map Cell := []      -- live wrapper values, by handle
   heap : NSet := []           -- reps holding a live user value (`Box<Option<T>>`)
   hostOwned : NSet := []      -- exported resources whose own handle the host holds
   scopes : NSet := []
+  slot : Map Nat := []        -- rep ↦ the payload in the rep's `Option<T>` (absent: `None`, i.e. taken by `into_inner`)
+  loc : Map Loc := []         -- where each payload ever created is: held by user code / in the slot of a rep / dropped
+  dropLog : List Nat := []    -- payloads whose `Drop` has run, in order (the drop-count observable)
 deriving Repr
 
 inductive Outcome where
@@ -214,11 +229,24 @@ def step (s : Sys) : Ev → Outcome
       match s.cells.get h with
       | some _ => if (s.table.get h).isSome then .ok s else .trap "borrow of an index the guest does not hold"
       | none => .disabled "no wrapper value holds this handle"
-  | .new h rep =>
+  | .mk pid =>
+      if (s.loc.get pid).isSome then .disabled "payload identity in use" else .ok { s with loc := s.loc.put pid Loc.held }
+  | .new h rep pid =>
       if (s.table.get h).isSome || (s.cells.get h).isSome then .disabled "index in use"
       else if s.heap.has rep then .disabled "the allocator returned a live address"
+      else if s.loc.get pid ≠ some .held then .disabled "user code does not hold this payload"
       else .ok { s with table := s.table.put h (.own (.exp rep)), cells := s.cells.put h ⟨true, none⟩,
-                        heap := s.heap.put rep () }
+                        heap := s.heap.put rep (), slot := s.slot.put rep pid, loc := s.loc.put pid (.inSlot rep) }
+  | .take h pid =>
+      -- `into_inner(self)`: `rep_take` = `(*ptr).take().unwrap()`; the wrapper is dropped right after (`drop h`)
+      match s.cells.get h, s.table.get h with
+      | some ⟨true, none⟩, some (.own (.exp rep)) =>
+          if s.slot.get rep = some pid then .ok { s with slot := s.slot.del rep, loc := s.loc.put pid Loc.held }
+          else .disabled "the slot of this resource does not hold this payload (safe code calls into_inner once)"
+      | _, _ => .disabled "no owned wrapper value of the exported resource holds this handle"
+  | .udrop pid =>
+      if s.loc.get pid = some .held then .ok { s with loc := s.loc.put pid Loc.dead, dropLog := pid :: s.dropLog }
+      else .disabled "user code does not hold this payload (dropping it now would be a second drop)"
   | .rep h rep =>
       match s.cells.get h with
       | some ⟨true, none⟩ =>
@@ -228,21 +256,32 @@ def step (s : Sys) : Ev → Outcome
               else if s.heap.has rep then .ok s else .trap "use of a destroyed representation"
           | _ => .trap "resource.rep on an index that is not an own handle of the exported resource"
       | _ => .disabled "no wrapper value of the exported resource holds this handle"
-  | .drop h =>
+  | .drop h dropped =>
       match s.cells.get h with
       | some c =>
           match s.table.get h with
           | some (.own (.exp rep)) =>
-              -- the host runs the destructor at once: `Box::from_raw(rep)` is dropped
-              if s.heap.has rep then .ok { s with table := s.table.del h, cells := s.cells.del h, heap := s.heap.del rep }
-              else .trap "destructor on a destroyed representation (double free)"
+              -- the host runs the destructor at once: `Box::from_raw(rep)` is dropped, and with it the payload
+              -- if (and only if) the slot still holds one
+              if !s.heap.has rep then .trap "destructor on a destroyed representation (double free)"
+              else if s.slot.get rep ≠ dropped then
+                .disabled "the destructor dropped a payload that is not in the slot / did not drop the one that is"
+              else
+                match dropped with
+                | some pid => .ok { s with table := s.table.del h, cells := s.cells.del h, heap := s.heap.del rep, slot := s.slot.del rep, loc := s.loc.put pid Loc.dead, dropLog := pid :: s.dropLog }
+                | none => .ok { s with table := s.table.del h, cells := s.cells.del h, heap := s.heap.del rep }
           | some _ => .ok { s with table := s.table.del h, cells := s.cells.del h }
           | none => let _ := c; .trap "resource.drop of an index the guest does not hold"
       | none => .disabled "no wrapper value holds this handle"
-  | .hostDrop rep =>
+  | .hostDrop rep dropped =>
       if !s.hostOwned.has rep then .disabled "host does not own this resource"
-      else if s.heap.has rep then .ok { s with hostOwned := s.hostOwned.del rep, heap := s.heap.del rep }
-      else .trap "destructor on a destroyed representation (double free)"
+      else if !s.heap.has rep then .trap "destructor on a destroyed representation (double free)"
+      else if s.slot.get rep ≠ dropped then
+        .disabled "the destructor dropped a payload that is not in the slot / did not drop the one that is"
+      else
+        match dropped with
+        | some pid => .ok { s with hostOwned := s.hostOwned.del rep, heap := s.heap.del rep, slot := s.slot.del rep, loc := s.loc.put pid Loc.dead, dropLog := pid :: s.dropLog }
+        | none => .ok { s with hostOwned := s.hostOwned.del rep, heap := s.heap.del rep }
   | .use rep =>
       if !s.hostOwned.has rep then .disabled "host does not own this resource"
       else if s.heap.has rep then .ok s else .trap "use of a destroyed representation"
@@ -252,6 +291,7 @@ def step (s : Sys) : Ev → Outcome
       else if !s.scopes.isEmpty then .disabled "calls still open"
       else if !s.table.isEmpty then .trap "handles leaked: the table is not empty although no Rust value is alive"
       else if !s.heap.isEmpty then .trap "user values leaked: representations alive without any handle"
+      else if s.loc.any (fun (_, l) => l == .held) then .disabled "user code still holds payloads"
       else .ok s
 
 inductive RunResult where
@@ -273,14 +313,16 @@ end Sys
 
 Raw trace (what checks/C07.py records), `;`-separated:
 `own+ h i:o|e:rep` `bor+ h i:o k` `call+ k` `call- k` `own- h` `lend h` `new h rep` `rep h rep`
-`drop h` `dtor rep` `udrop id` `use rep` `end`.
-`fold` turns `drop h; dtor rep; udrop _` (own handle of an exported resource) into `drop h`, and a
-stand-alone `dtor rep; udrop _` into `hostDrop rep`; anything else about dtor/udrop is malformed. -/
+`drop h` `dtor rep` `dudrop id` (payload Drop inside that destructor run) `mk id` `take id` `udrop id`
+`use rep` `end`.  `fold` turns `drop h; dtor rep; [dudrop i]` (own handle of an exported resource) into
+`drop h (dropped)`, a stand-alone `dtor rep; [dudrop i]` into `hostDrop rep (dropped)`, and
+`take i; rep h r` (what `into_inner` does) into `rep h r; take h i`. -/
 
 inductive Raw where
   | ev (e : Ev)
   | dtor (rep : Nat)
-  | udrop (id : Nat)
+  | dudrop (id : Nat)     -- a payload `Drop` that ran inside a destructor call
+  | takeNote (id : Nat)   -- the stub is about to call `into_inner` on the resource holding payload id
 deriving Repr
 
 def parseRes (s : String) : Option Res :=
@@ -297,11 +339,14 @@ def parseRaw (s : String) : Option Raw :=
   | ["call-", k] => k.toNat?.map fun k => .ev (.callEnd k)
   | ["own-", h] => h.toNat?.map fun h => .ev (.ownMinus h)
   | ["lend", h] => h.toNat?.map fun h => .ev (.lend h)
-  | ["new", h, r] => do pure (.ev (.new (← h.toNat?) (← r.toNat?)))
+  | ["new", h, r, i] => do pure (.ev (.new (← h.toNat?) (← r.toNat?) (← i.toNat?)))
+  | ["mk", i] => i.toNat?.map fun i => .ev (.mk i)
+  | ["take", i] => i.toNat?.map .takeNote
+  | ["dudrop", i] => i.toNat?.map .dudrop
   | ["rep", h, r] => do pure (.ev (.rep (← h.toNat?) (← r.toNat?)))
-  | ["drop", h] => h.toNat?.map fun h => .ev (.drop h)
+  | ["drop", h] => h.toNat?.map fun h => .ev (.drop h none)
   | ["dtor", r] => r.toNat?.map .dtor
-  | ["udrop", i] => i.toNat?.map .udrop
+  | ["udrop", i] => i.toNat?.map fun i => .ev (.udrop i)
   | ["use", r] => r.toNat?.map fun r => .ev (.use r)
   | ["end"] => some (.ev .done)
   | _ => none
@@ -310,18 +355,21 @@ def parseRaw (s : String) : Option Raw :=
 exported resources (only what is needed to tell the two forms of `dtor` apart) -/
 def fold : List Raw → Map Nat → Option (List Ev)
   | [], _ => some []
-  | .ev (.drop h) :: rest, expOwn =>
+  | .ev (.drop h _) :: rest, expOwn =>
       match expOwn.get h with
       | some rep =>
           match rest with
-          | .dtor r :: .udrop _ :: rest' => if r = rep then (fold rest' (expOwn.del h)).map (Ev.drop h :: ·) else none
+          | .dtor r :: .dudrop i :: rest' => if r = rep then (fold rest' (expOwn.del h)).map (Ev.drop h (some i) :: ·) else none
+          | .dtor r :: rest' => if r = rep then (fold rest' (expOwn.del h)).map (Ev.drop h none :: ·) else none
           | _ => none
-      | none => (fold rest expOwn).map (Ev.drop h :: ·)
-  | .dtor r :: .udrop _ :: rest, expOwn => (fold rest expOwn).map (Ev.hostDrop r :: ·)
-  | .dtor _ :: _, _ => none
-  | .udrop _ :: _, _ => none
+      | none => (fold rest expOwn).map (Ev.drop h none :: ·)
+  | .dtor r :: .dudrop i :: rest, expOwn => (fold rest expOwn).map (Ev.hostDrop r (some i) :: ·)
+  | .dtor r :: rest, expOwn => (fold rest expOwn).map (Ev.hostDrop r none :: ·)
+  | .dudrop _ :: _, _ => none
+  | .takeNote i :: .ev (.rep h r) :: rest, expOwn => (fold rest expOwn).map (fun es => Ev.rep h r :: Ev.take h i :: es)
+  | .takeNote _ :: _, _ => none
   | .ev (.ownPlus h (.exp rep)) :: rest, expOwn => (fold rest (expOwn.put h rep)).map (Ev.ownPlus h (.exp rep) :: ·)
-  | .ev (.new h rep) :: rest, expOwn => (fold rest (expOwn.put h rep)).map (Ev.new h rep :: ·)
+  | .ev (.new h rep i) :: rest, expOwn => (fold rest (expOwn.put h rep)).map (Ev.new h rep i :: ·)
   | .ev (.ownMinus h) :: rest, expOwn => (fold rest (expOwn.del h)).map (Ev.ownMinus h :: ·)
   | .ev e :: rest, expOwn => (fold rest expOwn).map (e :: ·)
 
